@@ -269,8 +269,11 @@ def cases(draw):
 def implicit_cases(draw):
     now = draw(gen.ref_times(1950, 2037))
     pool = [z for z in vtz.TZ_POOL_SMALL if z != "Z"]
-    tzname = draw(st.one_of(st.none(), st.sampled_from(pool)))
-    to_tz = draw(st.one_of(st.none(), st.sampled_from(pool)))
+    # abbreviations and offsets are matched case-insensitively by the library ('pkt', 'Gmt-3'); IANA names keep their case
+    cased = st.sampled_from(pool).map(lambda z: z if "/" in z else z.lower()) | st.sampled_from(
+        ["pkt", "Pkt", "ist", "Gmt-3", "gmt+5", "utc+05:30", "aest", "Pst", "pdt", "PKT", "NZDT", "nzdt"])
+    tzname = draw(st.one_of(st.none(), st.sampled_from(pool), cased))
+    to_tz = draw(st.one_of(st.none(), st.sampled_from(pool), cased))
     unit = draw(st.sampled_from(["second", "minute", "hour"]))
     n = draw(st.integers(0, 59)) if unit != "hour" else draw(st.integers(0, 1))
     return {"kind": "implicit", "now": now, "tz": tzname, "to_tz": to_tz, "unit": unit, "n": n,
